@@ -425,7 +425,7 @@ def minimise(mod, plan, still_fails, remaining):
 # replay files
 
 
-def write_replay(check_id, plan, violation, digest, tier, verif_seed, prefix=()):
+def write_replay(check_id, plan, violation, digest, tier, verif_seed, prefix=(), reproducible=True):
     d = os.path.join(VERIF_DIR, "replays", check_id)
     os.makedirs(d, exist_ok=True)
     sig = hashlib.sha256(violation["signature"].encode()).hexdigest()[:10]
@@ -439,6 +439,8 @@ def write_replay(check_id, plan, violation, digest, tier, verif_seed, prefix=())
         "plan": plan,
         "prefix": list(prefix),   # plans executed earlier in the same process (usually empty)
     }
+    if not reproducible:
+        doc["reproducible"] = False
     with open(path, "w", encoding="utf-8") as f:
         json.dump(doc, f, indent=1, sort_keys=True)
     return path
@@ -559,6 +561,7 @@ def _run_check(check_id, tier="quick", verif_seed=1, repo="/repo", workers=None,
 
         # ---- violations: distinct signatures, minimise, write replay files
         reports = []
+        unreproducible = []
         seen = set()
         for v in sorted(agg["violations"], key=lambda v: v["index"]):
             sig = v["violation"]["signature"]
@@ -566,14 +569,22 @@ def _run_check(check_id, tier="quick", verif_seed=1, repo="/repo", workers=None,
                 continue
             seen.add(sig)
             try:
-                fut = pool.submit(_worker_minimise, check_id, v["plan"], v.get("prefix", []), sig, repo,
-                                  getattr(mod, "SHRINK_BUDGET", 400), task_limit)
-                small, prefix, viol, dig = fut.result()
-                if viol is None:
-                    raise RuntimeError(f"violation {sig!r} vanished when its plan (with the plans executed before "
-                                       "it in the same process) was re-executed in a pristine process")
+                viol = None
+                for _attempt in range(3):
+                    fut = pool.submit(_worker_minimise, check_id, v["plan"], v.get("prefix", []), sig, repo,
+                                      getattr(mod, "SHRINK_BUDGET", 400), task_limit)
+                    small, prefix, viol, dig = fut.result()
+                    if viol is not None:
+                        break
             except Exception as e:
                 harness_errors.append("minimise: " + repr(e))
+                continue
+            if viol is None:
+                # The oracle failed on what the real code returned, yet the same plans in a pristine process
+                # pass: the harness is deterministic (double runs, selftest-determinism), so the behaviour of
+                # the code under test depends on state the plan does not determine (object addresses, hash
+                # seeds).  Reported as it was observed, unminimised, and marked as not reproducible.
+                unreproducible.append(v)
                 continue
             reports.append((dict(v, violation=viol), small, dig, prefix))
 
@@ -587,6 +598,10 @@ def _run_check(check_id, tier="quick", verif_seed=1, repo="/repo", workers=None,
             [PYTHON, os.path.join(VERIF_DIR, "run.py"), "replay", path, "--repo", repo],
             capture_output=True, text=True, timeout=900,
         )
+        if proc.returncode == 0 and "did not reproduce" in proc.stdout:
+            # fails in a pristine forked process, passes in a fresh interpreter: state outside the plan again
+            unreproducible.append(dict(v, plan=small, prefix=prefix))
+            continue
         if proc.returncode != 1:
             harness_errors.append(
                 f"violation {v['violation']['signature']!r} did not reproduce from its minimised "
@@ -596,6 +611,16 @@ def _run_check(check_id, tier="quick", verif_seed=1, repo="/repo", workers=None,
         lines.append(f"VIOLATION property={check_id} replay={path}")
         lines.append(f"  signature: {v['violation']['signature']}")
         lines.append(f"  detail: {v['violation']['detail']}")
+        exit_code = 1
+
+    for v in unreproducible:
+        path = write_replay(check_id, v["plan"], v["violation"], None, tier, verif_seed, v.get("prefix", []),
+                            reproducible=False)
+        lines.append(f"VIOLATION property={check_id} replay={path}")
+        lines.append(f"  signature: {v['violation']['signature']}")
+        lines.append(f"  detail: {v['violation']['detail']}")
+        lines.append("  NOTE: observed once; re-executing the same plans in a pristine process passes - the code under "
+                     "test depends on state outside the plan (e.g. object addresses), so the replay may not reproduce")
         exit_code = 1
 
     for sig, kf in sorted(agg["known"].items()):
